@@ -14,6 +14,7 @@ from harness.common import Ck, REPO, coq_list, coq_str, parse_coq_N_list, parse_
 from harness import c06_util as U
 from translate import c06_vmf as T
 from translate import c06_prog as P
+from translate import c01_kvser
 
 MANIFEST = dict(
     technique='Rocq proof over objects generated from vmf.py by fail-closed ast translators: write templates, key tables, '
@@ -51,7 +52,7 @@ MANIFEST = dict(
 
 IMPORTS = ['Coq.NArith.NArith', 'Coq.ZArith.ZArith', 'Coq.Lists.List', 'Coq.Strings.String', 'SV.KV.KvBase', 'SV.Fmt.VmfText',
            'SV.Fmt.VmfBlocks', 'SV.Gen.VmfTemplates_gen', 'SV.Gen.VmfKeys_gen', 'SV.Gen.VmfDispSizes_gen', 'SV.Gen.VmfOrder_gen',
-           'SV.Gen.VmfProg_gen', 'SV.Fmt.VmfFields', 'SV.Gen.VmfFieldsCfg_gen', 'SV.Props.C06']
+           'SV.Gen.VmfProg_gen', 'SV.Fmt.VmfFields', 'SV.Gen.VmfFieldsCfg_gen', 'SV.KV.KvSym', 'SV.Gen.KVSer_gen', 'SV.Props.C06']
 PRE = '''Import ListNotations. Open Scope string_scope.
 Fixpoint nl_eqb (a b : list N) : bool := match a, b with [], [] => true | x :: a', y :: b' => N.eqb x y && nl_eqb a' b' | _, _ => false end.
 Fixpoint bad_idx {A} (f : A -> bool) (n : N) (l : list A) : list N := match l with [] => [] | x :: r => (if f x then [] else [n]) ++ bad_idx f (n + 1)%N r end.
@@ -579,8 +580,10 @@ def run(ck: Ck) -> None:
         'the theorems as the section variables is_inst / same_var)',
     ]
     oks = [ck.translate(name, fn) for name, fn in {**T.GEN, **P.GEN}.items()]
+    # C01's generated parser sites (read-only use of C01's translator): premise pcfg_ok of the block theorem
+    oks.append(ck.translate('KVSer_gen', c01_kvser.translate))
     tr = ck.extra.get('translated', {})
-    built = all(oks) and ck.build(['Props/C06.vo'])
+    built = all(oks) and ck.build(['Gen/KVSer_gen.vo', 'Props/C06.vo'])
     if built:
         ck.theorems('Props/C06.v')
         obs: dict[str, str] = {}
@@ -602,6 +605,7 @@ def run(ck: Ck) -> None:
         for fid, label in sorted(prog.get('functions', {}).items()):
             obs[f'program_ok:{label}'] = f'prog_ok vmf_nums (fun_lookup vmf_progs {fid}%N)'
         obs['programs_all_ok'] = 'table_ok vmf_nums vmf_progs'
+        obs['kv_parser_sites_ok(premise pcfg_ok of the block theorem)'] = 'pcfg_ok gen_parsecfg'
         obs['program_calls_defined'] = 'calls_defined vmf_progs'
         obs['program_methods_complete'] = f'({len(T.EXPORT_FUNCS) - 1} <=? List.length vmf_progs)%nat'
         # field-level glue (round 2)
